@@ -780,7 +780,7 @@ def gen_file(r, quick, force=None):
   elif k < 0.65:
     cfg["max_row_count"] = "MNR"
     if r.random() < 0.12:
-      mnr = r.choice((b"  ", b"ab", b" 9"))
+      mnr = r.choice((b"  ", b"ab", b" 9", b"00", b"-1", b"00"))       # not a number, or not a positive number: the default applies
       rows = 23
     else:
       rows = int(mnr)
@@ -972,6 +972,26 @@ def sweep_regions(rec):
           record(rec, data, cfg)
 
 
+def sweep_full_text_fields(rec):
+  """text fields WITHOUT any unused-space byte (all 112 bytes used): a single full block, a full block followed by an extension
+  block (in both EBN numberings), a last block that is exactly full, for teletext and open subtitles, two code pages"""
+  words = (b"The quick brown fox jumps over the lazy dog and keeps running until the very end of this text field. " * 3)
+  for dsc in (b"1", b"0"):
+    for cct in (b"00", b"01"):
+      cases = {
+        "single-full": [(0xFF, words[:S.TF_SIZE])],
+        "full+extension": [(0x00, words[:S.TF_SIZE]), (0xFF, words[S.TF_SIZE:S.TF_SIZE + 30])],
+        "full+full": [(0x00, words[:S.TF_SIZE]), (0xFF, words[S.TF_SIZE:2 * S.TF_SIZE])],
+        "short+full": [(0x00, words[:40]), (0xFF, words[40:40 + S.TF_SIZE])],
+        "three-blocks-F0": [(0xEE, words[:S.TF_SIZE]), (0xEF, words[S.TF_SIZE:2 * S.TF_SIZE]), (0xFF, words[2 * S.TF_SIZE:2 * S.TF_SIZE + 5])],
+        "full-ending-in-newline": [(0xFF, words[:S.TF_SIZE - 1] + bytes([S.NEWLINE]))],
+      }
+      for _name, tfs in sorted(cases.items()):
+        blocks = [tti_block(sn=0, ebn=ebn, tci=(0, 0, 1, 0), tco=(0, 0, 3, 0), vp=18, jc=2, tf=tf) for ebn, tf in tfs]
+        blocks.append(tti_block(sn=1, tci=(0, 0, 4, 0), tco=(0, 0, 5, 0), vp=20, jc=2, tf=b"next"))
+        record(rec, stl_file(blocks, dsc=dsc, cct=cct), None)
+
+
 def sweep_line_count(rec, r, n):
   """tf.line_count (replaced by a symbolic n >= 1 in the proof tier) is at least 1 and within the oracle's row range"""
   from ttconv.stl import tf as TFM
@@ -1046,6 +1066,7 @@ def sweeps(job):
     sweep_times(rec)
   elif which == 2:
     sweep_regions(rec)
+    sweep_full_text_fields(rec)
   else:
     sweep_sn(rec, rng(SEED, "c09/sn"), 40 if QUICK else 400)
     sweep_line_count(rec, rng(SEED, "c09/lc"), 3000 if QUICK else 60000)
